@@ -272,6 +272,9 @@ func (check typecheck) binaryExpr(n *node) error {
 		}
 		if c0.rval.IsValid() && c1.rval.IsValid() {
 			// Avoid constant conversions below to ensure correct constant integer quotient.
+			if !c0.typ.untyped && !c1.typ.untyped && !c0.typ.equals(c1.typ) {
+				return n.cfgErrorf("invalid operation: mismatched types %s and %s", c0.typ.id(), c1.typ.id())
+			}
 			return nil
 		}
 	}
